@@ -19,13 +19,12 @@ func init() {
 	})
 }
 
-func runC05(c *Ctx) {
-	p := c.P
+// findRetrySend: the Send method of the struct in exporterhelper/internal that has a BackOffConfig and a channel
+// field (the retry sender), and its attempt call.
+func findRetrySend(p *Prog) (*ssa.Function, *types.Named, ssa.CallInstruction) {
 	ipk := p.ByPath[pkgEHI]
-	c.Rule("R1", "GATE", "every cycle attempt→attempt passes each verdict test on its continuing side; no verdict side reaches another attempt; only the timer case of the wait continues", 8)
 	if ipk == nil {
-		c.Anchor("exporterhelper/internal")
-		return
+		return nil, nil, nil
 	}
 	var send *ssa.Function
 	var retryT *types.Named
@@ -55,12 +54,27 @@ func runC05(c *Ctx) {
 		}
 	}
 	if send == nil {
-		c.Anchor("retry sender Send")
-		return
+		return nil, nil, nil
 	}
 	var attempt ssa.CallInstruction
 	for _, ci := range calls(send, isSendLike) {
 		attempt = ci
+	}
+	return send, retryT, attempt
+}
+
+func runC05(c *Ctx) {
+	p := c.P
+	ipk := p.ByPath[pkgEHI]
+	c.Rule("R1", "GATE", "every cycle attempt→attempt passes each verdict test on its continuing side; no verdict side reaches another attempt; only the timer case of the wait continues", 8)
+	if ipk == nil {
+		c.Anchor("exporterhelper/internal")
+		return
+	}
+	send, retryT, attempt := findRetrySend(p)
+	if send == nil {
+		c.Anchor("retry sender Send")
+		return
 	}
 	if attempt == nil {
 		c.Anchor("attempt call (next.Send) in retry Send")
